@@ -33,3 +33,46 @@ def get_next_weights_function(model):
     targets = [f'weight_{name}' for name in model.function_info.query('is_stochastic_next').index.tolist()]
     return concatenate_functions(functions=model.functions, targets=targets, return_type='dict', enforce_signature=False)
 
+
+def get_utility_and_feasibility_function(model, space_info, name_of_values_on_grid, period, is_last_period):
+    state_variables = model.variable_info.query('is_state').index.tolist()
+    choice_variables = model.variable_info.query('is_choice').index.tolist()
+    stochastic_variables = model.variable_info.query('is_stochastic').index.tolist()
+    current_u_and_f = get_current_u_and_f(model)
+    if is_last_period:
+        relevant_functions = [current_u_and_f]
+    else:
+        next_state = get_next_state_function(model, target='solve')
+        next_weights = get_next_weights_function(model)
+        scalar_value_function = get_function_representation(space_info=space_info, name_of_values_on_grid=name_of_values_on_grid, input_prefix='next_')
+        multiply_weights = get_multiply_weights(stochastic_variables)
+        relevant_functions = [current_u_and_f, next_state, next_weights, scalar_value_function]
+        value_function_arguments = list(inspect.signature(scalar_value_function).parameters)
+    arg_names = {'vf_arr'} | get_union_of_arguments(relevant_functions) - {'_period'}
+    arg_names = [arg for arg in arg_names if not arg.startswith('next_')]
+    if is_last_period:
+
+        @with_signature(args=arg_names)
+        def u_and_f(*args, **kwargs):
+            kwargs = all_as_kwargs(args, kwargs, arg_names=arg_names)
+            states = {k: v for k, v in kwargs.items() if k in state_variables}
+            choices = {k: v for k, v in kwargs.items() if k in choice_variables}
+            return current_u_and_f(**states, **choices, _period=period, params=kwargs['params'])
+    else:
+
+        @with_signature(args=arg_names)
+        def u_and_f(*args, **kwargs):
+            kwargs = all_as_kwargs(args, kwargs, arg_names=arg_names)
+            states = {k: v for k, v in kwargs.items() if k in state_variables}
+            choices = {k: v for k, v in kwargs.items() if k in choice_variables}
+            u, f = current_u_and_f(**states, **choices, _period=period, params=kwargs['params'])
+            _next_state = next_state(**states, **choices, _period=period, params=kwargs['params'])
+            weights = next_weights(**states, **choices, _period=period, params=kwargs['params'])
+            value_function = productmap(scalar_value_function, variables=[f'next_{var}' for var in stochastic_variables])
+            ccvs_at_nodes = value_function(**_next_state, **{k: v for k, v in kwargs.items() if k in value_function_arguments})
+            node_weights = multiply_weights(**weights)
+            ccv = (ccvs_at_nodes * node_weights).sum()
+            big_u = u + kwargs['params']['beta'] * ccv
+            return (big_u, f)
+    return u_and_f
+
